@@ -70,18 +70,25 @@ def check(case):
     names = [node_name(a) for a in addrs]
     srv_of = {n: s for n, s in zip(names, env.servers)}
     with virtual_time(env.clock):
-        hc = HashClient(config, socket_module=env.net, key_prefix=prefix, use_pooling=case.get("pooling", False), default_noreply=False)
+        klass, ns = HashClient, (lambda x: x)
+        if case.get("subclass") == "namespace":
+            # a HashClient subclass that maps every key (and server key) into a namespace in each public command: single-key and
+            # multi-key commands must agree on the mapped key - mapped once - and on the server it selects
+            from vlib import subclasses
+            klass, ns = subclasses.NamespaceHashClient, subclasses._ns
+        hc = klass(config, socket_module=env.net, key_prefix=prefix, use_pooling=case.get("pooling", False), default_noreply=False)
         keys = list(case["keys"])          # entries: key | (server_key, key)
-        desc = "servers %r%s pooling=%r prefix=%r" % (names, " configured as %r" % (config,) if case.get("spell") else "", case.get("pooling", False), prefix)
+        desc = "servers %r%s pooling=%r prefix=%r%s" % (names, " configured as %r" % (config,) if case.get("spell") else "", case.get("pooling", False), prefix,
+                                                      " (namespace subclass)" if case.get("subclass") else "")
 
         def inner(k):
             return k[1] if isinstance(k, tuple) else k
 
         def routing(k):
-            return k[0] if isinstance(k, tuple) else k
+            return ns(k[0] if isinstance(k, tuple) else k)
 
         def wire(k):
-            k = inner(k)
+            k = ns(inner(k))
             return prefix + (k.encode("ascii") if isinstance(k, str) else k)
 
         def owner(k):
@@ -326,6 +333,7 @@ def case_strategy(tier):
                     max_size=2)
     return st.fixed_dictionaries({"addrs": servers, "pooling": st.booleans(), "prefix": st.sampled_from([b"", b"", b"p:", b"\xffns/"]),
                                   "keys": keys2, "script": script, "dups": dups, "spell": st.one_of(st.none(), st.lists(st.integers(0, 4), min_size=1, max_size=5)),
+                                  "subclass": st.sampled_from([None, None, "namespace"]),
                                   "coll": st.sampled_from(["list", "list", "tuple", "iter", "generator", "map", "dictview"])})
 
 
@@ -340,7 +348,7 @@ def grid_cases(tier, seed):
                    "keys": keys, "script": [{"i": i, "op": op} for i, op in enumerate(
                        ["incr", "touch", "gat", "append", "cas", "delete", "add", "decr", "gats", "prepend", "replace", "get"])],
                    "dups": [["dup\x7fkey", ["tenant-a", "tenant-b", "sk3", "sk4"]], ["d\x7f2", ["a", "b", "c", "d", "e"]]], "coll": coll,
-                   "spell": None if coll == "list" else [n + pooling, 3, 1, 4, 2]}
+                   "spell": None if coll == "list" else [n + pooling, 3, 1, 4, 2], "subclass": "namespace" if coll in ("list", "generator") and n > 1 else None}
 
 
 PARTS = [
